@@ -29,7 +29,7 @@ def all_handler_names():
 
 def lookup_events(path: str, vnode: int, tid: int, ts: int):
     """Kernel encoding of a VFS_LOOKUP: 8-byte vnode + 24 path bytes, then 32-byte chunks, NUL padded."""
-    raw = path.encode()
+    raw = path.encode('utf-8', 'surrogateescape')       # lone surrogates U+DC80..U+DCFF stand for raw bytes 0x80..0xff
     eid = IDS['VFS_LOOKUP']
     chunks = [vnode.to_bytes(8, 'little') + raw[:24].ljust(24, b'\0')]
     raw = raw[24:]
